@@ -635,7 +635,8 @@ class Variant(productmd.composeinfo.VariantBase):
             raise ValueError("Invalid character '-' in variant ID: %s" % self.id)
 
     def _validate_uid(self):
-        if self.parent:
+        # compare with None: a parent without children yet has zero length and is falsy
+        if self.parent is not None:
             uid = "%s-%s" % (self.parent.uid, self.id)
         else:
             uid = self.uid
